@@ -93,11 +93,11 @@ var keptCount, recheckCount int64
 
 // snapshot is called by the goroutine that received the completed command.
 //
-// strict: the protocol delivers the header metadata before the reply is bound to its call (raw,
-// thrift-binary), so an OK reply must show the tag its handler set. thrift-struct parses the
-// metadata header after the body - i.e. after bindReply took its copy - and InputMeta() is empty
-// there (a functional gap outside this property, see notes); the tag is then required only when
-// any metadata is present. Stability after completion is required in every case.
+// strict: the protocol delivers the header metadata before the reply is bound to its call, so an
+// OK reply must show the tag its handler set. This holds for every protocol driven here: the
+// thrift struct protocol used to parse the metadata header after the body - after bindReply had
+// taken its copy - so that InputMeta() was always empty (found here, repaired by /repo 55a7afc).
+// Stability after completion is required in every case.
 func snapshot(sc, tag string, strict bool, cmd erpc.CallCmd, bptr *[]byte, sptr *TMsg) *kept {
 	k := &kept{cmd: cmd, sc: sc, tag: tag, bptr: bptr, sptr: sptr}
 	_, k.stat = cmd.Reply()
@@ -373,7 +373,7 @@ func callKept(r *rand.Rand, sc string, pk protoKind, sess erpc.Session, kp *keep
 		cmd = sess.Call(path, arg, result, set...)
 	}
 	if kp != nil {
-		kp.add(snapshot(sc, tag, !pk.strukt, cmd, bptr, sptr))
+		kp.add(snapshot(sc, tag, true, cmd, bptr, sptr))
 	}
 	return cmd
 }
